@@ -225,7 +225,7 @@ func (state *state) Update(token *Stateful, etag string) (*Stateful, error) {
 		state.tokens = make(map[string]*Stateful)
 	}
 
-	old, ok := state.tokens[token.Token]
+	_, ok := state.tokens[token.Token]
 	if ok {
 		if etag != state.etag() {
 			return nil, ErrTagMismatch
@@ -233,7 +233,9 @@ func (state *state) Update(token *Stateful, etag string) (*Stateful, error) {
 		state.tokens[token.Token] = token
 		err = state.rewrite()
 		if err != nil {
-			state.tokens[token.Token] = old
+			// rewrite may have reloaded or dropped the table;
+			// forget it, it will be read back from the file.
+			state.reset()
 			return nil, err
 		}
 		return token, nil
@@ -266,7 +268,7 @@ func (state *state) Delete(token string, etag string) error {
 		return os.ErrNotExist
 	}
 
-	old, ok := state.tokens[token]
+	_, ok := state.tokens[token]
 	if !ok {
 		return os.ErrNotExist
 	}
@@ -276,7 +278,9 @@ func (state *state) Delete(token string, etag string) error {
 	delete(state.tokens, token)
 	err = state.rewrite()
 	if err != nil {
-		state.tokens[token] = old
+		// rewrite may have reloaded or dropped the table;
+		// forget it, it will be read back from the file.
+		state.reset()
 		return err
 	}
 	return nil
